@@ -59,7 +59,7 @@ func checkC28(r *core.Run, p *core.Program) {
 		}
 	}
 	for tn, f := range adapters {
-		checkAdapterContract(r, a, f, tn)
+		checkAdapterContract(r, a, f, tn, "C28.raw-reader")
 	}
 	r.Check("C28.raw-reader", "cbe|normalising adapter exists", token.NoPos, len(adapters) >= 1, "no normalising reader adapter found: every Read call site would have to implement the full io.Reader contract itself")
 
@@ -224,7 +224,7 @@ func checkC28(r *core.Run, p *core.Program) {
 func isStdlib(path string) bool { return !strings.Contains(strings.SplitN(path, "/", 2)[0], ".") }
 
 // checkAdapterContract verifies the Read method of a normalising adapter.
-func checkAdapterContract(r *core.Run, a *analysis, f *fn, tn *types.TypeName) {
+func checkAdapterContract(r *core.Run, a *analysis, f *fn, tn *types.TypeName, rule string) {
 	info := f.Pkg.TypesInfo
 	name := f.Name()
 	var loop *ast.ForStmt
@@ -303,7 +303,7 @@ func checkAdapterContract(r *core.Run, a *analysis, f *fn, tn *types.TypeName) {
 			retErrNoProgress = true
 		}
 	}
-	r.Check("C28.raw-reader", name+"|held error is sticky", f.Decl.Pos(), stickyFirst, "the adapter must first return an error held back from the previous call")
-	r.Check("C28.raw-reader", name+"|bounded retry of empty reads", f.Decl.Pos(), loop != nil && bounded && retErrNoProgress, "a (0, nil) read must be retried a bounded number of times and then reported as io.ErrNoProgress (neither spin forever nor be treated as data or EOF)")
-	r.Check("C28.raw-reader", name+"|data before error", f.Decl.Pos(), dataFirst && errSecond, "when Read returns n > 0 together with an error the adapter must deliver the n bytes with a nil error and hold the error for the next call (and test n > 0 before err != nil)")
+	r.Check(rule, name+"|held error is sticky", f.Decl.Pos(), stickyFirst, "the adapter must first return an error held back from the previous call")
+	r.Check(rule, name+"|bounded retry of empty reads", f.Decl.Pos(), loop != nil && bounded && retErrNoProgress, "a (0, nil) read must be retried a bounded number of times and then reported as io.ErrNoProgress (neither spin forever nor be treated as data or EOF)")
+	r.Check(rule, name+"|data before error", f.Decl.Pos(), dataFirst && errSecond, "when Read returns n > 0 together with an error the adapter must deliver the n bytes with a nil error and hold the error for the next call (and test n > 0 before err != nil)")
 }
